@@ -455,6 +455,8 @@ def exp_template(v, base, exp_seq):
         return False, "result is not the state of a loop over the exponent: %s" % Tm.show(v, maxdepth=4)
     outer = v.args[0]
     it, limb, accs, inits, nexts = outer.args
+    if it.op == "flat_map_t":
+        return exp_template_flat(v, base, exp_seq)
     rev_outer = False
     x = it
     if x.op == "rev":
@@ -507,6 +509,41 @@ def exp_template(v, base, exp_seq):
             return True, "LSB-first square-and-multiply over all limbs"
         return False, "LSB-first step must be acc' = ITE(bit, acc*ins, acc), ins' = ins^2; got %s / %s" % (Tm.show(t, maxdepth=5), Tm.show(nexts2[ii], maxdepth=4))
     return False, "loop directions / state do not match a square-and-multiply template (outer reversed: %s, inner reversed: %s, %d carried values)" % (rev_outer, rev_inner, len(accs))
+
+
+def exp_template_flat(v, base, exp_seq):
+    """the same template written as one fold over the flattened bit stream:
+       fold(flat_map(limbs.rev(), |limb| (0..64).rev().map(|i| bit(limb, i))), 1, |r, bit| bit ? r^2*base : r^2)"""
+    it, bititem, accs, inits, nexts = v.args[0].args
+    limb, inner, src = it.args
+    if not (src.op == "rev" and src.args[0] is exp_seq):
+        return False, "flattened bit stream must run over the whole exponent slice, most significant limb first: source %s" % Tm.show(src, maxdepth=4)
+    if limb is not mk("item_of", src):
+        return False, "flat_map closure is not applied to the limbs of the exponent"
+    if inner.op != "seq_map_t":
+        return False, "per-limb bit stream is not a map over bit positions: %s" % Tm.show(inner, maxdepth=4)
+    i, body, rngsrc = inner.args
+    y = rngsrc
+    if not (y.op == "rev" and i is mk("item_of", rngsrc)):
+        return False, "per-limb bit positions must run from 63 down to 0 in the MSB-first form"
+    y = y.args[0]
+    rng = dict(zip(y.args[1], y.args[2:])) if y.op == "struct" and y.args[0] == "core::ops::Range" else {}
+    if not (rng.get("start") is lit(0) and rng.get("end") is lit(64)):
+        return False, "per-limb bit positions must cover 0..64; iterator %s" % Tm.show(rngsrc, maxdepth=4)
+    bit = Tm.intop("band", Tm.intop("shr", limb, i), lit(1))
+    if not (body is Tm.eq(bit, lit(1)) or body is Tm.ne(bit, lit(0))):
+        return False, "stream element is not the bit (limb >> i) & 1: %s" % Tm.show(body, maxdepth=6)
+    if len(accs) != 1 or v.args[1] != 0:
+        return False, "flattened form carries exactly the running power"
+    r = accs[0]
+    sq = mk("mul", r, r)
+    t = nexts[0]
+    isb = lambda c: c is bititem or c is Tm.eq(bititem, Tm.TRUE)
+    if t.op == "ite" and isb(t.args[0]) and t.args[1] is mk("mul", sq, base) and t.args[2] is sq:
+        if inits[0].op == "felem" and inits[0].args[1] == 1:
+            return True, "MSB-first square-and-multiply over the flattened bit stream of all limbs"
+        return False, "accumulator must start at 1"
+    return False, "MSB-first step must be r' = ITE(bit, r^2*base, r^2); got %s" % Tm.show(t, maxdepth=6)
 
 
 def check_exp(rep, cfg):
